@@ -1,2 +1,389 @@
-(* Properties_C04.v — theorem statements for C04 (under construction). *)
-From XF Require Import AsmHProofs.
+(* Properties_C04.v — theorem statements for C04 (heat-flow solution satisfies the discrete
+   conduction equations and heat balance).  Model: AsmH.v + KT.v (HSolver::AnalyzeProblem,
+   HSolver::ChargeOnConductor, CHMaterialProp::GetK); the statements of hsolver.cpp shared with
+   esolver.cpp are AsmE's definitions applied to [eview P].  Proofs: AsmOpsProofs.v,
+   AsmEProofs.v, AsmHProofs.v, AsmHInt.v (edge integrals, Coquelicot).  Real-number reading. *)
+From Coquelicot Require Import Coquelicot.
+From Coq Require Import ZArith List Bool Arith Lia Reals Lra.
+From XF Require Import Arith Sparse SparseProofs AsmOps AsmOpsProofs AsmE AsmEProofs KT AsmH AsmHProofs AsmHInt.
+Import ListNotations.
+Local Open Scope R_scope.
+
+(* 1. The element loop of HSolver::AnalyzeProblem (all meshes, all element orders, any previous
+      iterate Vo): row i of the assembled residual M U - b is minus the sum, over the elements
+      and their local rows assembled into row i, of the element's local residual
+      sum_b Me[a][b] U[n_b] - be[a]  (element matrices after the prescribed-value processing). *)
+Theorem C04_element_loop_rows :
+  forall (P : hprob (F:=R)) (nn : nat) (Vo : vecT R) (extRo extRi extZo : R) (V : vecT R) (Q : list Z) (U : vecT R)
+         (els : list eelem) (s : hstate (F:=R)),
+  mat_wf (hsM s) -> length (hsb s) = length (hsM s) -> Forall (elem_ok (eview RA P) nn (length (hsM s))) els ->
+  let s' := fold_left (helem_step RA P nn Vo extRo extRi extZo V Q) els s in
+  mat_wf (hsM s') /\ length (hsM s') = length (hsM s) /\ length (hsb s') = length (hsb s) /\
+  forall i, (i < length (hsM s))%nat ->
+    Ax (hsM s') U i - vget RA (hsb s') i =
+    (Ax (hsM s) U i - vget RA (hsb s) i)
+    - hloop_resid P Vo extRo extRi extZo V Q els (hsDepth s) (hsKludge s) (hsPows s) U i.
+Proof. exact hloop_rows. Qed.
+Print Assumptions C04_element_loop_rows.
+
+(* 2. Free nodes and prescribed temperatures.  For every vector U that takes the prescribed
+      values, the assembled row of a FREE node is the sum of the un-eliminated element
+      residuals (conduction, transient, volume source, flux/convection/radiation terms); the
+      assembled row of a node with a PRESCRIBED temperature is d_i (U_i - prescribed_i) for
+      every U, so the solution of the system meets the prescribed temperature when d_i <> 0. *)
+Theorem C04_free_rows_and_prescribed_temperatures :
+  forall (P : hprob (F:=R)) (nn : nat) (Vo : vecT R) (extRo extRi extZo : R) (V : vecT R) (Q : list Z) (U : vecT R)
+         (els : list eelem) (s : hstate (F:=R)),
+  mat_wf (hsM s) -> length (hsb s) = length (hsM s) ->
+  Forall (elem_ok (eview RA P) nn (length (hsM s))) els ->
+  let s' := fold_left (helem_step RA P nn Vo extRo extRi extZo V Q) els s in
+  forall i, (i < length (hsM s))%nat ->
+    (flagged Q i = false -> (forall j, flagged Q j = true -> vget RA U j = vget RA V j) ->
+       Ax (hsM s') U i - vget RA (hsb s') i =
+       (Ax (hsM s) U i - vget RA (hsb s) i)
+       - hloop_resid_raw P Vo extRo extRi extZo els (hsDepth s) (hsKludge s) (hsPows s) U i) /\
+    (flagged Q i = true ->
+       Ax (hsM s') U i - vget RA (hsb s') i =
+       (Ax (hsM s) U i - vget RA (hsb s) i)
+       - (vget RA U i - vget RA V i) * hloop_diag P Vo extRo extRi extZo els (hsDepth s) (hsKludge s) (hsPows s) i).
+Proof. exact assembled_rows_free_and_prescribed. Qed.
+Print Assumptions C04_free_rows_and_prescribed_temperatures.
+
+(* 2b. element level (the elimination code is esolver's, AsmE.presc_terms): rows of flagged local
+       nodes become Me[a][a]*(U_a - prescribed_a) for every U; rows of free local nodes keep
+       their residual for every U that takes the prescribed values *)
+Theorem C04_prescribed_rows_force_temperatures :
+  forall (V : vecT R) (Q : list Z) (n0 n1 n2 : nat) (m00 m01 m02 m11 m12 m22 b0 b1 b2 : R) (U : vecT R),
+  let n := (n0, n1, n2) in
+  let Me := [m00; m01; m02; m01; m11; m12; m02; m12; m22] in
+  let be := [b0; b1; b2] in
+  let r := presc_mb V Q n Me be in
+  (flagged Q n0 = true -> local_resid (fst r) (snd r) n U 0 = m00 * (vget RA U n0 - vget RA V n0)) /\
+  (flagged Q n1 = true -> local_resid (fst r) (snd r) n U 1 = m11 * (vget RA U n1 - vget RA V n1)) /\
+  (flagged Q n2 = true -> local_resid (fst r) (snd r) n U 2 = m22 * (vget RA U n2 - vget RA V n2)).
+Proof. exact presc_resid_flagged. Qed.
+Print Assumptions C04_prescribed_rows_force_temperatures.
+
+Theorem C04_free_rows_keep_residual :
+  forall (V : vecT R) (Q : list Z) (n0 n1 n2 : nat) (m00 m01 m02 m11 m12 m22 b0 b1 b2 : R) (U : vecT R),
+  let n := (n0, n1, n2) in
+  let Me := [m00; m01; m02; m01; m11; m12; m02; m12; m22] in
+  let be := [b0; b1; b2] in
+  (flagged Q n0 = true -> vget RA U n0 = vget RA V n0) ->
+  (flagged Q n1 = true -> vget RA U n1 = vget RA V n1) ->
+  (flagged Q n2 = true -> vget RA U n2 = vget RA V n2) ->
+  let r := presc_mb V Q n Me be in
+  local_resid (fst r) (snd r) n U 0 =
+    (if flagged Q n0 then m00 * (vget RA U n0 - vget RA V n0) else local_resid Me be n U 0) /\
+  local_resid (fst r) (snd r) n U 1 =
+    (if flagged Q n1 then m11 * (vget RA U n1 - vget RA V n1) else local_resid Me be n U 1) /\
+  local_resid (fst r) (snd r) n U 2 =
+    (if flagged Q n2 then m22 * (vget RA U n2 - vget RA V n2) else local_resid Me be n U 2).
+Proof. exact presc_resid. Qed.
+Print Assumptions C04_free_rows_keep_residual.
+
+(* 3. the element matrices (conduction + transient + all boundary types, planar and
+      axisymmetric, with or without libm inputs) are symmetric 3x3 with a 3-vector *)
+Theorem C04_element_matrices_symmetric :
+  forall (P : hprob (F:=R)) (Vo : vecT R) (extRo extRi extZo D0 k0 : R) (pows : list (R * R * R)) (el : eelem),
+  let r := helem_matrices RA P Vo extRo extRi extZo D0 k0 pows el in
+  sym9 (em_Me r) /\ len3 (em_be r).
+Proof. exact helem_matrices_shape. Qed.
+Print Assumptions C04_element_matrices_symmetric.
+
+(* 4. Conduction: the element matrix is minus the linear-triangle Galerkin stiffness of
+      div(k grad T) with (kx,ky) = mean of the three nodal conductivities GetK(Vo[n_a]) — any
+      anisotropic or temperature-dependent material, planar and axisymmetric — plus the lumped
+      transient coefficient on the diagonal. *)
+Theorem C04_conduction_is_galerkin :
+  forall (P : hprob (F:=R)) (Vo : vecT R) (extRo extRi extZo D0 k0 : R) (pows : list (R * R * R)) (el : eelem) (j k : nat),
+  ee el = (None, None, None) -> (j < 3)%nat -> (k < 3)%nat ->
+  ga (el_geom (eview RA P) el) <> 0 -> snd (elem_dk (eview RA P) extRo extRi extZo D0 k0 el) <> 0 ->
+  let r := helem_matrices RA P Vo extRo extRi extZo D0 k0 pows el in
+  let dk := elem_dk (eview RA P) extRo extRi extZo D0 k0 el in
+  let kn := kn_of RA P Vo el in
+  m3get RA (em_Me r) j k =
+    - galerkin_K (fst dk) (fst kn) (snd kn) (el_geom (eview RA P) el) j k / snd dk
+    + (if Nat.eqb j k then lump_K P (fst dk) el else 0).
+Proof. exact conduction_is_galerkin. Qed.
+Print Assumptions C04_conduction_is_galerkin.
+
+(* 5. Heat balance: every column of the conduction part sums to zero (the whole column sums to
+      the lumped transient coefficient, which is 0 for a steady problem), so the nodal conduction
+      reactions of any temperature field sum to zero over the mesh. *)
+Theorem C04_heat_balance_columns :
+  forall (P : hprob (F:=R)) (Vo : vecT R) (extRo extRi extZo D0 k0 : R) (pows : list (R * R * R)) (el : eelem) (k : nat),
+  ee el = (None, None, None) -> (k < 3)%nat ->
+  let r := helem_matrices RA P Vo extRo extRi extZo D0 k0 pows el in
+  m3get RA (em_Me r) 0 k + m3get RA (em_Me r) 1 k + m3get RA (em_Me r) 2 k
+  = lump_K P (fst (elem_dk (eview RA P) extRo extRi extZo D0 k0 el)) el.
+Proof. exact conduction_column_sums. Qed.
+Print Assumptions C04_heat_balance_columns.
+
+(* 6. Transient term: K = -Depth*Kt*a/(3 dT) goes on the three diagonal entries and
+      K*Tprev[n_j] into be[j] (backward Euler with the previous field); K is minus the row sum of
+      the consistent capacity matrix Depth*Kt*a/12*[2 1 1;1 2 1;1 1 2]/dT. *)
+Theorem C04_lumped_transient_term :
+  forall (P : hprob (F:=R)) (Vo : vecT R) (extRo extRi extZo D0 k0 : R) (pows : list (R * R * R)) (el : eelem),
+  ee el = (None, None, None) -> hdT P <> 0 ->
+  let r := helem_matrices RA P Vo extRo extRi extZo D0 k0 pows el in
+  let D := fst (elem_dk (eview RA P) extRo extRi extZo D0 k0 el) in
+  let blk := nth (eblk el) (hblocks P) (dhblock RA) in
+  let a := ga (el_geom (eview RA P) el) in
+  let K := - (D * hkt blk * a / (3 * hdT P)) in
+  lump_K P D el = K /\
+  (forall j, (j < 3)%nat ->
+     K = - (consistent_mass D (hkt blk) a (hdT P) j 0 + consistent_mass D (hkt blk) a (hdT P) j 1
+            + consistent_mass D (hkt blk) a (hdT P) j 2)) /\
+  (forall j, (j < 3)%nat ->
+     vget RA (em_be r) j = K * vget RA (htprev P) (tri_get (ep el) j) + - D * hqv blk * a / 3).
+Proof. exact lumped_transient_term. Qed.
+Print Assumptions C04_lumped_transient_term.
+
+Theorem C04_lumped_is_rowsum_of_consistent_mass :
+  forall (D kt a dT : R) (j : nat), (j < 3)%nat -> dT <> 0 ->
+  D * kt * a / 12 * (if Nat.eqb j 0 then 2 else 1) / dT
+  + D * kt * a / 12 * (if Nat.eqb j 1 then 2 else 1) / dT
+  + D * kt * a / 12 * (if Nat.eqb j 2 then 2 else 1) / dT
+  = D * kt * a / (3 * dT).
+Proof. exact lumped_is_rowsum. Qed.
+Print Assumptions C04_lumped_is_rowsum_of_consistent_mass.
+
+(* 7. Boundary edges (types 1 heat flux, 2 convection, 3 radiation; planar and axisymmetric):
+      what edge j adds to the element matrix and vector, in terms of the coefficients (c0,c1)
+      of the boundary law  k dT/dn + c0*T + c1 = 0. *)
+Theorem C04_boundary_edge_terms :
+  forall (P : hprob (F:=R)) (Vo : vecT R) (xs : vecT R) (g : egeom (F:=R)) (el : eelem)
+         (D m0 m1 m2 m3 m4 m5 m6 m7 m8 b0 b1 b2 : R) (rad : bool) (j e : nat) (c0 c1 : R),
+  (j < 3)%nat -> tri_get (ee el) j = Some e ->
+  edge_coeffs (nth e (hlines P) (dhline RA)) (edge_Tlast Vo el j) = Some (c0, c1) ->
+  let Me := [m0; m1; m2; m3; m4; m5; m6; m7; m8] in
+  let be := [b0; b1; b2] in
+  let r := hedge_step RA P Vo xs g el (D, Me, be, [], rad) j in
+  let xj := vget RA xs j in
+  let xk := vget RA xs (nxt j) in
+  let D' := if haxi P then PI * (xj + xk) else D in
+  let l := vget RA (gl g) j in
+  fst (fst (fst (fst r))) = D' /\
+  (forall a b, (a < 3)%nat -> (b < 3)%nat ->
+     m3get RA (es_Me r) a b = m3get RA Me a b + edge_Me (haxi P) D' c0 l xj xk j a b) /\
+  (forall a, (a < 3)%nat -> vget RA (es_be r) a = vget RA be a + edge_be (haxi P) D' c1 l xj xk j a).
+Proof. exact hedge_step_spec. Qed.
+Print Assumptions C04_boundary_edge_terms.
+
+Theorem C04_flux_and_convection_laws :
+  forall (lp : hline (F:=R)) (T c0 c1 : R), edge_coeffs lp T = Some (c0, c1) ->
+  (hfmt lp = 1%nat -> c0 * T + c1 = hqs lp) /\
+  (hfmt lp = 2%nat -> c0 * T + c1 = hh lp * (T - hTinf lp)).
+Proof. intros lp T c0 c1 H. split; intros Hf; [exact (flux_law lp T c0 c1 Hf H)|exact (convection_law lp T c0 c1 Hf H)]. Qed.
+Print Assumptions C04_flux_and_convection_laws.
+
+(* 8. Radiation: with Tlast = T the linearisation returns the radiated flux exactly, and for
+      any T it is the tangent of beta*Ksb*(T^4 - Tinf^4) at Tlast. *)
+Theorem C04_radiation_fixed_point :
+  forall (lp : hline (F:=R)) (T c0 c1 : R), hfmt lp = 3%nat -> edge_coeffs lp T = Some (c0, c1) ->
+  c0 * T + c1 = hbeta lp * ksb RA * (T ^ 4 - hTinf lp ^ 4).
+Proof. exact radiation_fixed_point. Qed.
+Print Assumptions C04_radiation_fixed_point.
+
+Theorem C04_radiation_is_tangent_linearisation :
+  forall (lp : hline (F:=R)) (Tl T c0 c1 : R), hfmt lp = 3%nat -> edge_coeffs lp Tl = Some (c0, c1) ->
+  c0 * T + c1 = hbeta lp * ksb RA * (Tl ^ 4 - hTinf lp ^ 4) + 4 * hbeta lp * ksb RA * Tl ^ 3 * (T - Tl).
+Proof. exact radiation_is_tangent. Qed.
+Print Assumptions C04_radiation_is_tangent_linearisation.
+
+(* 9. Axisymmetric edge weights: with r(t) = xj(1-t) + xk t, phi_j = 1-t, phi_k = t the numbers
+      (3xj+xk)/12, (xj+3xk)/12, (xj+xk)/12, (2xj+xk)/6, (xj+2xk)/6 are the Riemann integrals over
+      the edge of r phi_a phi_b and r phi_a, and the entries the solver adds are -c0 resp. c1
+      times 2 PI l times those integrals. *)
+Theorem C04_axi_edge_weights :
+  forall (D c0 c1 l xj xk : R) (j : nat), (j < 3)%nat ->
+  let k := nxt j in
+  is_RInt (fun t => rlin xj xk t * phi_j t * phi_j t) 0 1 ((3 * xj + xk) / 12) /\
+  is_RInt (fun t => rlin xj xk t * phi_k t * phi_k t) 0 1 ((xj + 3 * xk) / 12) /\
+  is_RInt (fun t => rlin xj xk t * phi_j t * phi_k t) 0 1 ((xj + xk) / 12) /\
+  is_RInt (fun t => rlin xj xk t * phi_j t) 0 1 ((2 * xj + xk) / 6) /\
+  is_RInt (fun t => rlin xj xk t * phi_k t) 0 1 ((xj + 2 * xk) / 6) /\
+  edge_Me true D c0 l xj xk j j j = - c0 * (2 * PI * l * ((3 * xj + xk) / 12)) /\
+  edge_Me true D c0 l xj xk j k k = - c0 * (2 * PI * l * ((xj + 3 * xk) / 12)) /\
+  edge_Me true D c0 l xj xk j j k = - c0 * (2 * PI * l * ((xj + xk) / 12)) /\
+  edge_Me true D c0 l xj xk j k j = - c0 * (2 * PI * l * ((xj + xk) / 12)) /\
+  edge_be true D c1 l xj xk j j = c1 * (2 * PI * l * ((2 * xj + xk) / 6)) /\
+  edge_be true D c1 l xj xk j k = c1 * (2 * PI * l * ((xj + 2 * xk) / 6)).
+Proof.
+  intros D c0 c1 l xj xk j Hj k.
+  split; [apply int_r_jj|]. split; [apply int_r_kk|]. split; [apply int_r_jk|].
+  split; [apply int_r_j|]. split; [apply int_r_k|]. exact (axi_edge_entries D c0 c1 l xj xk j Hj).
+Qed.
+Print Assumptions C04_axi_edge_weights.
+
+(* planar edges: the weights 1/3, 1/6, 1/2 are the same integrals with r = 1, and a linear
+   temperature along the edge integrates against the shape functions to (2Tj+Tk)/6, (Tj+2Tk)/6 *)
+Theorem C04_planar_edge_weights :
+  forall (D c0 c1 l xj xk : R) (j : nat), (j < 3)%nat ->
+  let k := nxt j in
+  is_RInt (fun t => rlin 1 1 t * phi_j t * phi_j t) 0 1 (1 / 3) /\
+  is_RInt (fun t => rlin 1 1 t * phi_j t * phi_k t) 0 1 (1 / 6) /\
+  is_RInt (fun t => rlin 1 1 t * phi_j t) 0 1 (1 / 2) /\
+  (forall Tj Tk, is_RInt (fun t => (Tj * phi_j t + Tk * phi_k t) * phi_j t) 0 1 ((2 * Tj + Tk) / 6) /\
+                 is_RInt (fun t => (Tj * phi_j t + Tk * phi_k t) * phi_k t) 0 1 ((Tj + 2 * Tk) / 6)) /\
+  edge_Me false D c0 l xj xk j j j = - c0 * (D * l * (1 / 3)) /\
+  edge_Me false D c0 l xj xk j k k = - c0 * (D * l * (1 / 3)) /\
+  edge_Me false D c0 l xj xk j j k = - c0 * (D * l * (1 / 6)) /\
+  edge_Me false D c0 l xj xk j k j = - c0 * (D * l * (1 / 6)) /\
+  edge_be false D c1 l xj xk j j = c1 * (D * l * (1 / 2)) /\
+  edge_be false D c1 l xj xk j k = c1 * (D * l * (1 / 2)).
+Proof.
+  intros D c0 c1 l xj xk j Hj k.
+  split; [replace (1 / 3) with ((3 * 1 + 1) / 12) by field; apply int_r_jj|].
+  split; [replace (1 / 6) with ((1 + 1) / 12) by field; apply int_r_jk|].
+  split; [replace (1 / 2) with ((2 * 1 + 1) / 6) by field; apply int_r_j|].
+  split; [intros Tj Tk; split; [apply int_T_j|apply int_T_k]|].
+  exact (planar_edge_entries D c0 c1 l xj xk j Hj).
+Qed.
+Print Assumptions C04_planar_edge_weights.
+
+(* 10. CHMaterialProp::GetK on a strictly increasing T-k table: linear (Kx,Ky) without a table,
+       clamped below the first and above the last knot, the linear interpolant of the two knots
+       on every segment (both components), hence the knot values at the knots where the two
+       adjacent pieces agree (continuity). *)
+Theorem C04_getk_without_table :
+  forall kx ky t : R, getk RA kx ky [] t = (kx, ky).
+Proof. exact getk_no_table. Qed.
+Print Assumptions C04_getk_without_table.
+
+Theorem C04_getk_clamps :
+  forall (kx ky : R) (tk : list (R * R)) (t0 k0 tl kl t : R),
+  tk_sorted ((t0, k0) :: tk) -> last ((t0, k0) :: tk) (t0, k0) = (tl, kl) ->
+  (t <= t0 -> getk RA kx ky ((t0, k0) :: tk) t = (k0, k0)) /\
+  (tl <= t -> getk RA kx ky ((t0, k0) :: tk) t = (kl, kl)).
+Proof.
+  intros kx ky tk t0 k0 tl kl t Hs Hl. split.
+  - apply getk_clamp_low.
+  - apply (getk_clamp_high kx ky ((t0, k0) :: tk) tl kl t (t0, k0)); [discriminate|exact Hs|exact Hl].
+Qed.
+Print Assumptions C04_getk_clamps.
+
+Theorem C04_getk_interpolates_on_segments :
+  forall (kx ky : R) (pre : list (R * R)) (ti ki tj kj : R) (post : list (R * R)) (t : R),
+  tk_sorted (pre ++ (ti, ki) :: (tj, kj) :: post) -> ti <= t <= tj ->
+  let v := ki + (kj - ki) * (t - ti) / (tj - ti) in
+  getk RA kx ky (pre ++ (ti, ki) :: (tj, kj) :: post) t = (v, v).
+Proof. exact getk_on_segment. Qed.
+Print Assumptions C04_getk_interpolates_on_segments.
+
+Theorem C04_getk_at_knots_and_continuity :
+  forall (kx ky : R) (pre : list (R * R)) (ti ki tj kj : R) (post : list (R * R)),
+  tk_sorted (pre ++ (ti, ki) :: (tj, kj) :: post) ->
+  getk RA kx ky (pre ++ (ti, ki) :: (tj, kj) :: post) ti = (ki, ki) /\
+  getk RA kx ky (pre ++ (ti, ki) :: (tj, kj) :: post) tj = (kj, kj) /\
+  (forall tm km, tj < tm ->
+     ki + (kj - ki) * (tj - ti) / (tj - ti) = kj /\ kj + (km - kj) * (tj - tj) / (tm - tj) = kj).
+Proof.
+  intros kx ky pre ti ki tj kj post Hs.
+  destruct (getk_at_knots kx ky pre ti ki tj kj post Hs) as [H1 H2].
+  split; [exact H1|]. split; [exact H2|].
+  intros tm km Hm.
+  assert (Hij : ti < tj) by (destruct (tk_sorted_app_r pre _ Hs) as [H _]; exact H).
+  exact (getk_pieces_agree_at_knots ti ki tj kj tm km Hij Hm).
+Qed.
+Print Assumptions C04_getk_at_knots_and_continuity.
+
+(* 11. The scan "is any element nonlinear".  As shipped (loop bound NumNodes, index into the
+       element list) it is REFUTED on the faithful model: there is a mesh with more elements
+       than nodes whose only element with a T-k table has an index >= NumNodes, and the scan
+       answers "linear".  With the loop bound NumEls (the repair) the scan is complete. *)
+Theorem C04_nonlinear_scan_refuted :
+  exists P : hprob (F:=R),
+    (length (hnodes P) < length (helems P))%nat /\
+    (exists i, elem_has_table P i = true) /\
+    nonlinear_scan P (scan_bound_asis P) = false.
+Proof. exact nonlinear_scan_refuted. Qed.
+Print Assumptions C04_nonlinear_scan_refuted.
+
+Theorem C04_nonlinear_scan_complete_fixed :
+  forall (P : hprob (F:=R)),
+  nonlinear_scan P (scan_bound_fixed P) = true <-> exists i, elem_has_table P i = true.
+Proof. exact (@nonlinear_scan_complete R). Qed.
+Print Assumptions C04_nonlinear_scan_complete_fixed.
+
+Theorem C04_nonlinear_scan_partial :
+  forall (P : hprob (F:=R)) (bound : nat),
+  (nonlinear_scan P bound = true -> exists i, (i < bound)%nat /\ elem_has_table P i = true) /\
+  ((length (helems P) <= length (hnodes P))%nat ->
+   (nonlinear_scan P (scan_bound_asis P) = true <-> exists i, elem_has_table P i = true)).
+Proof.
+  intros P bound. split; [apply nonlinear_scan_sound|apply nonlinear_scan_asis_complete_small].
+Qed.
+Print Assumptions C04_nonlinear_scan_partial.
+
+(* 12. The outer iteration do{...}while(IsNonlinear): whenever it returns, the system it leaves
+       is the one its last pass assembled from the previous iterate, the temperatures are the
+       linear solver's answer for that system, and if the problem was flagged nonlinear the
+       convergence test sqrt(e1/e2) < 100*Precision accepted the last step: the conductivities
+       and the radiation linearisation are evaluated at temperatures within that tolerance of
+       the written ones. *)
+Theorem C04_outer_iteration_exit :
+  forall (P : hprob (F:=R)) (solve : nat -> lin (F:=R) -> option (vecT R)) (powsf : nat -> list (R * R * R))
+         (fuel : nat) (L : lin (F:=R)) (D : R) (nl : bool) (it : nat) (L' : lin (F:=R)) (Q' : list Z) (n : nat),
+  outer RA fuel P solve powsf L D nl it = Some (L', Q', n) ->
+  exists Lp Dp nlp itp,
+    let r := hpass RA P Lp Dp (powsf itp) in
+    let L1 := fst (fst (fst r)) in
+    lM L' = lM L1 /\ lb L' = lb L1 /\ Q' = snd (fst (fst r)) /\
+    solve itp L1 = Some (Sparse.lV L') /\ n = S itp /\ (it <= itp)%nat /\
+    (nl = true -> nlp = true) /\
+    ((nlp || snd r)%bool = true ->
+       outer_converged RA P (firstn (length (hnodes P)) (Sparse.lV Lp)) (Sparse.lV L') = true).
+Proof. intros P solve powsf. exact (outer_exit P solve powsf). Qed.
+Print Assumptions C04_outer_iteration_exit.
+
+(* 13. Conductor heat flows: each element's contribution to HSolver::ChargeOnConductor is the
+       conduction (Galerkin stiffness) reaction of the conductor's nodes in that element, with the
+       conductivity evaluated at the final temperatures. *)
+Theorem C04_conductor_flow_is_stiffness_reaction :
+  forall (P : hprob (F:=R)) (Depth : R) (V Pv : vecT R) (Z : R) (el : eelem),
+  ga (el_geom (eview RA P) el) <> 0 ->
+  let g := el_geom (eview RA P) el in
+  let De := if haxi P then 2 * PI * gr g else Depth in
+  let kn := kn_of RA P V el in
+  let Ke := fun j k => galerkin_K De (fst kn) (snd kn) g j k in
+  let n := fun j => tri_get (ep el) j in
+  hoc_elem RA P Depth V Pv Z el =
+    Z + (vget RA Pv (n 0%nat) * (Ke 0%nat 0%nat * vget RA V (n 0%nat) + Ke 0%nat 1%nat * vget RA V (n 1%nat) + Ke 0%nat 2%nat * vget RA V (n 2%nat))
+       + vget RA Pv (n 1%nat) * (Ke 1%nat 0%nat * vget RA V (n 0%nat) + Ke 1%nat 1%nat * vget RA V (n 1%nat) + Ke 1%nat 2%nat * vget RA V (n 2%nat))
+       + vget RA Pv (n 2%nat) * (Ke 2%nat 0%nat * vget RA V (n 0%nat) + Ke 2%nat 1%nat * vget RA V (n 1%nat) + Ke 2%nat 2%nat * vget RA V (n 2%nat))).
+Proof. exact conductor_flow_is_stiffness_reaction. Qed.
+Print Assumptions C04_conductor_flow_is_stiffness_reaction.
+
+(* ---- non-vacuity ---- *)
+(* the freshly created (and wiped) system meets the hypotheses of the loop theorems *)
+Example C04_initial_state_ok : forall n bw prec lam,
+  mat_wf (lM (lcreate RA n bw prec lam)) /\ length (lb (lcreate RA n bw prec lam)) = length (lM (lcreate RA n bw prec lam)).
+Proof.
+  intros. cbn [lM lb lcreate]. split; [apply mat_wf_mcreate|].
+  rewrite mcreate_length, vzero_length. reflexivity.
+Qed.
+
+(* a strictly increasing table with three knots; its value inside a segment *)
+Example C04_table_ok : tk_sorted [(250, 1); (300, 2); (350, 6)] /\
+  getk RA 0 0 [(250, 1); (300, 2); (350, 6)] 325 = (4, 4).
+Proof.
+  split; [cbn; lra|].
+  pose proof (getk_on_segment 0 0 [(250, 1)] 300 2 350 6 [] 325) as H. cbv zeta in H.
+  change ([(250, 1)] ++ [(300, 2); (350, 6)]) with [(250, 1); (300, 2); (350, 6)] in H.
+  rewrite H; [|cbn; lra|lra]. unfold k_interp. ra_simpl. f_equal; field.
+Qed.
+
+(* the witness of the refuted scan is flagged by the repaired scan *)
+Example C04_witness_found_by_fixed_scan : nonlinear_scan witness (scan_bound_fixed witness) = true.
+Proof. reflexivity. Qed.
+
+(* the boundary laws exist for the three derivative boundary types and only for them *)
+Example C04_edge_coeffs_defined : forall (lp : hline (F:=R)) T,
+  (exists c, edge_coeffs lp T = Some c) <-> (hfmt lp = 1 \/ hfmt lp = 2 \/ hfmt lp = 3)%nat.
+Proof.
+  intros lp T. unfold edge_coeffs. destruct (hfmt lp) as [|[|[|[|n]]]]; split;
+    try (intros [c H]; discriminate H); try (intros [H|[H|H]]; discriminate H);
+    try (intros _; eexists; reflexivity); intros _; auto.
+Qed.
